@@ -388,6 +388,7 @@ def create_feature_map(
     tile_base_offsets: List[int],
     stride_multiplier: Optional[List[int]] = None,
     is_ofm: bool = False,
+    is_transpose: bool = False,
 ) -> NpuFeatureMap:
     """Creates feature map with common fields populated"""
     fm = NpuFeatureMap()
@@ -400,7 +401,7 @@ def create_feature_map(
     else:
         assert 0, "Incorrect tensor format"
 
-    if is_ofm and tens.ops[0] is not None and tens.ops[0].original_type == Op.Transpose:
+    if is_ofm and is_transpose:
         # op_shape4D has ifm shape, see fixup_transpose. Stride calculations needs to be
         # based on the correct ofm shape.
         op_shape4D_ofm_shape = Shape4D([op_shape4D.batch, op_shape4D.width, op_shape4D.height, op_shape4D.depth])
@@ -540,6 +541,8 @@ def set_common_op_fields(npu_op: NpuBlockOperation, cmd: NpuStripe, arch: Archit
         op.tile_base_offsets_ofm,
         op.ofm_stride_multiplier,
         is_ofm=True,
+        # The operation that writes the ofm tensor can be an activation fused into the pass of the transpose
+        is_transpose=op.original_type == Op.Transpose,
     )
     npu_op.ofm.shape = NpuShape3D(height=out_block.height, width=out_block.width, depth=out_block.depth)
     npu_op.ofm.quantization = get_ofm_quantization(ps, cmd.ofm_tensor)
